@@ -14,6 +14,7 @@ QUICK_RUNS = 150000
 THOROUGH_RUNS = 2000000
 QUICK_WALL = 100
 THOROUGH_WALL = 1500
+CORPUS_VARIANTS = True      # past findings are replayed under every key kind and action relabelling
 CHUNK = 100
 RULE = ("one run = one generated proper table MDP x learner x parameters, driven by a seeded scheduler that decides "
         "every initial state, exploration coin, action choice, tie-break and successor; distinct = distinct decision-log "
@@ -273,7 +274,12 @@ def _execute(td, view, cfg, ctx, sched):
                 state['main'] = False
                 sview = MDPView(sib)
                 W0, ctx.W = ctx.W, game_W(sview)
-                learner.train_on(make_mdp(sview, ctx, alias=cfg.get('alias', 'fresh')))
+                _first = learner.train_on(make_mdp(sview, ctx, alias=cfg.get('alias', 'fresh')))
+                for _s in range(view.N):          # the first result is used before the object is used again
+                    try:
+                        _first.policy.action_dist(sk[_s])
+                    except Exception:
+                        pass
                 ctx.W = W0
                 state['main'] = True
             res = learner.train_on(mdp)
